@@ -718,8 +718,37 @@ def generic_context_programs():
     return out
 
 
+def import_form_programs():
+    """equal aliases that arrive from OTHER modules: two modules export functions (or Kombination constructors) with the same alias; the
+    importer brings both in through every pairing of import forms (whole module, selective, directory import of both at once, the
+    importer's own declaration before / after the import). Every such program must be rejected; the control with distinct aliases must
+    be accepted and each alias must call its own function. -> [(name, files, expected stdout or None for 'must be rejected')]"""
+    out = []
+    fn = lambda pub, name, alias, ret: ('Die %sFunktion %s mit dem Parameter r vom Typ Zahl, gibt eine Zahl zurück, macht:\n\tGib r plus %d zurück.\nUnd kann so benutzt werden:\n\t"%s"\n'
+                                        % ("öffentliche " if pub else "", name, ret, alias))
+    for kind in ("same", "distinct"):
+        a1, a2 = ("die Fläche bei <r>", "die Fläche bei <r>") if kind == "same" else ("die Fläche bei <r>", "der Umfang bei <r>")
+        kreis, quadrat = fn(True, "Kreis_F", a1, 100), fn(True, "Quadrat_F", a2, 200)
+        use = 'Schreibe (die Fläche bei 1) auf eine Zeile.\n' + ('' if kind == "same" else 'Schreibe (der Umfang bei 1) auf eine Zeile.\n')
+        exp = None if kind == "same" else "101\n201\n"
+        head = 'Binde "Duden/Ausgabe" ein.\n'
+        forms = {
+            "directory": ({"formen/kreis.ddp": kreis, "formen/quadrat.ddp": quadrat}, 'Binde alle Module aus "formen" ein.\n'),
+            "directory-recursive": ({"formen/kreis.ddp": kreis, "formen/tief/quadrat.ddp": quadrat}, 'Binde rekursiv alle Module aus "formen" ein.\n'),
+            "whole+whole": ({"kreis.ddp": kreis, "quadrat.ddp": quadrat}, 'Binde "kreis" ein.\nBinde "quadrat" ein.\n'),
+            "selective+selective": ({"kreis.ddp": kreis, "quadrat.ddp": quadrat}, 'Binde Kreis_F aus "kreis" ein.\nBinde Quadrat_F aus "quadrat" ein.\n'),
+            "whole+selective": ({"kreis.ddp": kreis, "quadrat.ddp": quadrat}, 'Binde "kreis" ein.\nBinde Quadrat_F aus "quadrat" ein.\n'),
+            "own-before-import": ({"kreis.ddp": kreis}, fn(False, "Quadrat_F", a2, 200) + 'Binde "kreis" ein.\n'),
+            "own-after-import": ({"kreis.ddp": kreis}, 'Binde "kreis" ein.\n' + fn(False, "Quadrat_F", a2, 200)),
+            "own-after-directory": ({"formen/kreis.ddp": kreis}, 'Binde alle Module aus "formen" ein.\n' + fn(False, "Quadrat_F", a2, 200)),
+        }
+        for fname, (files, imports) in forms.items():
+            out.append(("%s/%s" % (kind, fname), dict(files, **{"main.ddp": head + imports + use}), exp))
+    return out
+
+
 def part3(chk, sc):
-    cases = generic_context_programs()
+    cases = generic_context_programs() + import_form_programs()
 
     def job(k):
         name, files, exp = cases[k]
@@ -741,6 +770,18 @@ def part3(chk, sc):
             chk.inconclusive += 1
             continue
         chk.count("generic_context_programs")
+        if len(name.split("/")) == 2:       # import_form_programs
+            kind, form = name.split("/")
+            if exp is None:
+                if res[0] != "rejected":
+                    chk.violation({"level": "program", "scenario": "import-forms", "cause": "duplicate alias from another module accepted", "forms": form},
+                                  files=dict(files, **{"stdout.txt": res[1]}), text="%s: two functions with one alias in scope, no diagnostic; program prints %r" % (name, res[1]))
+                elif "bereits" not in res[1] and "schon" not in res[1]:
+                    chk.count("import_form_rejections_with_another_message")
+            elif res[0] == "rejected" or res[1] != exp:
+                chk.violation({"level": "program", "scenario": "import-forms", "cause": "declared alias not callable", "forms": form},
+                              files=dict(files, **{"observed.txt": res[1], "expected.txt": exp}), text="%s: expected %r got %s" % (name, exp, res))
+            continue
         vis, key, use, _ = name.split("/")
         if res[0] == "rejected":
             first = re.sub(r"/\S*/", "", next((l for l in res[1].split("\n") if "Fehler" in l), ""))[:100]
@@ -791,17 +832,22 @@ def replay(path):
         if hit:
             print("VIOLATION property=%s replay=%s" % (PID, path))
         return 1 if hit else 0
-    if sig.get("scenario") == "generic-context":
+    if sig.get("scenario") in ("generic-context", "import-forms"):
         vlib.ensure_build(asan=False)
         with Scratch("c20r") as sc:
             d = sc.sub("r")
-            for fn in os.listdir(path):
-                if fn.endswith(".ddp"):
-                    vlib.write_file(os.path.join(d, fn), open(os.path.join(path, fn), encoding="utf-8").read())
+            for dp, dn, fns in os.walk(path):
+                for fn in fns:
+                    if fn.endswith(".ddp"):
+                        rel = os.path.relpath(os.path.join(dp, fn), path)
+                        vlib.write_file(os.path.join(d, rel), open(os.path.join(dp, fn), encoding="utf-8").read())
             exe = os.path.join(d, "out")
             c = vlib.kddp_compile(os.path.join(d, "main.ddp"), exe)
             expf = os.path.join(path, "expected.txt")
-            bad = c.rc != 0 or (os.path.exists(expf) and vlib.run_exe(exe).out != open(expf).read())
+            if "duplicate alias" in sig.get("cause", ""):
+                bad = c.rc == 0      # the program must be rejected
+            else:
+                bad = c.rc != 0 or (os.path.exists(expf) and vlib.run_exe(exe).out != open(expf).read())
         if bad:
             print("VIOLATION property=%s replay=%s" % (PID, path))
         return 1 if bad else 0
